@@ -159,7 +159,10 @@ def _prune_cache(keep=24):
         ents.sort()
     except OSError:
         return
-    for _, e in ents[:-keep]:
+    now = time.time()
+    for mt, e in ents[:-keep]:
+        if now - mt < 1800:
+            continue        # possibly in use by a concurrent run (scratch-copy campaigns): never pull a fresh entry away
         shutil.rmtree(os.path.join(CACHE_DIR, e), ignore_errors=True)
 
 
